@@ -50,6 +50,12 @@ def templates():
     yield "sibling-containers", T.prog([T.gnode("ga", ga), T.gnode("gb", gb), T.fn("jn", ["qa", "qb"], ["j0"])])
     sub = T.prog([T.fn("use", ["val"], ["u0"]), T.fn("use2", ["val", "e0"], ["u1"])], name="sub")
     yield "consumer-before-container", T.prog([T.fn("early", ["val"], ["e1"]), T.fn("produce", ["e0"], ["val"]), T.gnode("sub", sub)])
+    # gates that EMIT an ordering signal (a gate has no data outputs but can produce a signal), at the root and inside a container,
+    # with the waiter beside the gate and outside the container; an emitting if/else too
+    yield "emitting-gate-root", T.prog([T.fn("src", ["e0"], ["v"]), T.route("tri", ["v"], ["p", "END"], emit=["triaged"]), T.fn("p", ["v"], ["a"]), T.fn("aud", ["e0"], ["z"], wait_for=["triaged"])])
+    desk = T.prog([T.route("triage", ["v"], ["fix", "END"], emit=["triaged"]), T.fn("fix", ["v"], ["a"]), T.fn("note", ["v"], ["n0"], wait_for=["triaged"])], name="desk")
+    yield "emitting-gate-in-container", T.prog([T.fn("src", ["e0"], ["v"]), T.gnode("desk", desk), T.fn("aud", ["a", "e0"], ["z"], wait_for=["triaged"])])
+    yield "emitting-ifelse", T.prog([T.fn("src", ["e0"], ["v"]), T.ifelse("chk", ["v"], "p", "q", emit=["checked"]), T.fn("p", ["v"], ["a"]), T.fn("q", ["v"], ["b"]), T.fn("aud", ["e0"], ["z"], wait_for=["checked"])])
     oin = T.prog([T.fn("o1", ["e0"], ["x"], emit=["sig"]), T.fn("o2", ["e0"], ["y"], wait_for=["sig"])], name="oin")
     yield "ordering-inside-container", T.prog([T.gnode("oin", oin), T.fn("fin", ["x", "y"], ["z"])])
 
